@@ -188,6 +188,7 @@ def build(rec, seed=0, kwonly=True, posonly=False, carriers=True, methods=None):
         return (m - 1) * 3 + ph
 
     mws = []
+    shared_type = type('MwSharedNonUnique', (Middleware,), {'unique': False}) if (n >= 2 and seed % 4 == 0) else None
     for m in range(1, n + 1):
         attrs = {}
         for ph in (1, 2, 3):
@@ -227,9 +228,18 @@ def build(rec, seed=0, kwonly=True, posonly=False, carriers=True, methods=None):
             src = 'def f(%s):\n    return %s(dict(%s))\n' % (selfsig, recname, kwd)
             exec(src, env)
             attrs[phase_attr[ph]] = env['f']
-        cls = type('Mw%d' % m, (Middleware,), attrs)
-        mws.append(cls())
+        if shared_type is not None:
+            # all middlewares are instances of ONE non-unique type (attributes on the instances): nothing is de-duplicated,
+            # every instance keeps its position and its provides - conflicts included
+            inst = shared_type()
+            for k_, v_ in attrs.items():
+                setattr(inst, k_, v_.__get__(inst, shared_type) if callable(v_) else v_)
+            mws.append(inst)
+        else:
+            cls = type('Mw%d' % m, (Middleware,), attrs)
+            mws.append(cls())
     b.mws = mws
+    b.shared_type = shared_type is not None
 
     # endpoint
     def make_inner(f, ph, default_sig_names=()):
@@ -303,15 +313,16 @@ def build(rec, seed=0, kwonly=True, posonly=False, carriers=True, methods=None):
     b.elsewhere = None
     if rng.random() < 0.5:
         try:
-            b.elsewhere = Application([('/elsewhere', b.app)], resources=dict((nm, ResObj(nm)) for nm in rec['res']))
+            b.elsewhere = Application([('/elsewhere', b.app)])     # the parent defines nothing itself: everything the routes
+            # need comes along with the embedded application's own resources and middlewares
         except Exception as e:  # noqa  (not part of the configuration under test)
             b.elsewhere = 'not-embedded: %r' % (e,)
     return b
 
 
-def tag_of(b, value, name, this_reqno, request_obj):
+def tag_of(b, value, name, this_reqno, request_obj, app=None):
     from werkzeug.wrappers import BaseRequest
-    app = b.app
+    app = app or b.app
     if isinstance(value, str) and value == 'uv-%s' % name:
         return ['url', name, 0, 0]
     if isinstance(value, ResObj):
@@ -347,7 +358,7 @@ def tag_of(b, value, name, this_reqno, request_obj):
     return ['alien', name, 0, 0]
 
 
-def run_request(b, which, method='GET', ep_returns_response=False):
+def run_request(b, which, method='GET', ep_returns_response=False, via_parent=False):
     """which: 'main' | 'null'.  Returns (status or exception, observed calls as {(m,ph): {name: tag}})"""
     from werkzeug.test import Client
     from werkzeug.wrappers import BaseResponse
@@ -355,8 +366,11 @@ def run_request(b, which, method='GET', ep_returns_response=False):
     W.calls = []
     W.reqno += 1
     W.ep_returns_response = ep_returns_response
-    cl = Client(b.app, BaseResponse)
+    serving = b.elsewhere if via_parent else b.app
+    cl = Client(serving, BaseResponse)
     path = b.path if which == 'main' else b.nullpath
+    if via_parent:
+        path = '/elsewhere' + path
     err = None
     status = None
     try:
@@ -372,5 +386,5 @@ def run_request(b, which, method='GET', ep_returns_response=False):
     for (m, ph, kw) in W.calls:
         if (m, ph) in obs:
             dup = True
-        obs[(m, ph)] = dict((nm, tag_of(b, v, nm, W.reqno, request_obj)) for nm, v in kw.items())
+        obs[(m, ph)] = dict((nm, tag_of(b, v, nm, W.reqno, request_obj, serving)) for nm, v in kw.items())
     return status, err, obs, dup, body
